@@ -3,6 +3,7 @@ use std::io::{self, Read, Write};
 
 mod data;
 mod names;
+mod coll;
 
 fn unhex(s: &str) -> Vec<u8> {
     let s = s.trim();
@@ -42,6 +43,8 @@ fn main() {
         "seq" => data::seq(&args[1..]),
         "typed" => data::typed(&args[1..]),
         "tag" => names::tag(&args[1..]),
+        "frame" => coll::frame(&args[1..]),
+        "response" => coll::response(&args[1..]),
         "filter" => names::filter(&args[1..]),
         "subsys" => names::subsys(&args[1..]),
         other => { eprintln!("unknown scenario {other}"); std::process::exit(2); }
